@@ -503,6 +503,8 @@ func (a *E3) analyze(fn *ssa.Function) {
 			// parameters of function literals: values handed in by whoever calls the literal
 			if bt, ok := p.Type().Underlying().(*types.Basic); ok && bt.Kind() != types.UnsafePointer {
 				a.set(p, oSCALAR)
+			} else if o, ok := a.litParamOrigin(fn, i); ok {
+				a.set(p, o) // the literal is only ever invoked by a private helper it is handed to: what that helper passes
 			} else {
 				a.set(p, oUSER)
 			}
@@ -542,6 +544,124 @@ func (a *E3) analyze(fn *ssa.Function) {
 	for _, an := range fn.AnonFuncs {
 		a.analyze(an)
 	}
+}
+
+// litParamOrigin: the origin of parameter i of the function literal lit when every use of the literal is "argument of a statically
+// called, unexported function of this package whose corresponding parameter is used for nothing but being called" (a private
+// higher-order helper such as buildList(spine, fill)). The origins the helper passes at those calls are translated into the
+// creator's context through the helper's call site. ok=false: the literal may be called by anybody (a user callback, a stored value).
+func (a *E3) litParamOrigin(lit *ssa.Function, i int) (O, bool) {
+	parent := lit.Parent()
+	if parent == nil {
+		return 0, false
+	}
+	var out O
+	found := false
+	for _, b := range parent.Blocks {
+		for _, in := range b.Instrs {
+			var mc ssa.Value
+			switch x := in.(type) {
+			case *ssa.MakeClosure:
+				if x.Fn == lit {
+					mc = x
+				}
+			}
+			if mc == nil {
+				continue
+			}
+			refs := mc.Referrers()
+			if refs == nil || len(*refs) == 0 {
+				return 0, false
+			}
+			for _, r := range *refs {
+				ci, isCall := r.(ssa.CallInstruction)
+				if !isCall {
+					return 0, false
+				}
+				cc := ci.Common()
+				h := cc.StaticCallee()
+				if h == nil || !a.inPkg(h) || h.Object() == nil || h.Object().Exported() || cc.IsInvoke() || cc.Value == mc {
+					return 0, false
+				}
+				args := callArgs(cc)
+				for j, ar := range args {
+					if ar != mc {
+						continue
+					}
+					if j >= len(h.Params) {
+						return 0, false
+					}
+					pj := h.Params[j]
+					prefs := pj.Referrers()
+					if prefs == nil {
+						return 0, false
+					}
+					for _, pr := range *prefs {
+						pc, isCall := pr.(ssa.CallInstruction)
+						if !isCall || pc.Common().Value != pj || pc.Common().IsInvoke() {
+							return 0, false // stored, passed on or compared: other callers are possible
+						}
+						if i >= len(pc.Common().Args) {
+							return 0, false
+						}
+						found = true
+						out |= a.subst(a.get(pc.Common().Args[i]), slotArgs(h, args))
+					}
+				}
+			}
+		}
+	}
+	// a function literal without free variables is not a MakeClosure but the function value itself
+	if !found {
+		for _, b := range parent.Blocks {
+			for _, in := range b.Instrs {
+				ci, isCall := in.(ssa.CallInstruction)
+				if !isCall {
+					continue
+				}
+				cc := ci.Common()
+				for j, ar := range callArgs(cc) {
+					if ar != ssa.Value(lit) {
+						continue
+					}
+					h := cc.StaticCallee()
+					if h == nil || !a.inPkg(h) || h.Object() == nil || h.Object().Exported() || cc.IsInvoke() || j >= len(h.Params) {
+						return 0, false
+					}
+					pj := h.Params[j]
+					prefs := pj.Referrers()
+					if prefs == nil {
+						return 0, false
+					}
+					for _, pr := range *prefs {
+						pc, isCall := pr.(ssa.CallInstruction)
+						if !isCall || pc.Common().Value != pj || pc.Common().IsInvoke() || i >= len(pc.Common().Args) {
+							return 0, false
+						}
+						found = true
+						out |= a.subst(a.get(pc.Common().Args[i]), slotArgs(h, callArgs(cc)))
+					}
+				}
+			}
+		}
+		if found {
+			// every other use of the bare function value must be such an argument too
+			for _, b := range parent.Blocks {
+				for _, in := range b.Instrs {
+					for _, op := range in.Operands(nil) {
+						if op == nil || *op != ssa.Value(lit) {
+							continue
+						}
+						ci, isCall := in.(ssa.CallInstruction)
+						if !isCall || ci.Common().Value == ssa.Value(lit) {
+							return 0, false
+						}
+					}
+				}
+			}
+		}
+	}
+	return out, found
 }
 
 func (a *E3) structField(addrX ssa.Value, idx int) *types.Var {
@@ -829,6 +949,19 @@ func (a *E3) ByName(name string) *ssa.Function {
 	for _, f := range a.fns {
 		if a.FuncName(f) == name {
 			return f
+		}
+	}
+	return nil
+}
+
+// ByObj returns the analysed function declared by the types object f (generic functions: their first analysed instance).
+func (a *E3) ByObj(f *types.Func) *ssa.Function {
+	for _, fn := range a.fns {
+		if fn.Object() == f {
+			return fn
+		}
+		if o := fn.Origin(); o != nil && o.Object() == f {
+			return fn
 		}
 	}
 	return nil
